@@ -461,3 +461,256 @@ func TestVerifC10(t *testing.T) {
 		w.Flush()
 	}
 }
+
+// ---------------------------------------------------------------------------------------------
+// Status codes: a peer-chosen 16-bit code is part of "any byte stream whatsoever".  Every error
+// the client returns for a refusal carries that code, and its text is produced by Error()
+// methods that callers invoke directly (the device service logs with err.Error() on goroutines
+// that do not recover; fmt would hide a panic as "%!v(PANIC=...)").
+//
+// Request {"op":"decode","lo":..,"hi":..}: for every code in [lo,hi] an LLRPStatus / FieldError /
+// ParameterError (nested) carrying it is encoded by this file, decoded by the library and its
+// Error() called directly.  Request {"op":"session","codes":[..]}: for every code a real Client
+// on net.Pipe against a peer that refuses at one stage with that code; Error() is called
+// directly on whatever Connect / SendFor / Shutdown returned.  Answer: for each kind the codes
+// for which Error() panicked, and those whose text hides a recovered panic.
+
+type c10SweepReq struct {
+	Op    string `json:"op"`
+	Lo    int    `json:"lo"`
+	Hi    int    `json:"hi"`
+	Codes []int  `json:"codes"`
+}
+
+type c10SweepRes struct {
+	Op      string              `json:"op"`
+	Calls   int                 `json:"calls"`
+	Panics  map[string][]int    `json:"panics"`  // kind -> codes for which a direct Error() call panicked
+	Hidden  map[string][]int    `json:"hidden"`  // kind -> codes whose text contains a panic recovered by fmt
+	NoError map[string][]int    `json:"noerror"` // kind -> non-zero codes for which no error came back (diagnosis)
+	Samples map[string]string   `json:"samples"` // a few texts
+	PanicTx map[string]string   `json:"panic_text"`
+	// TableTexts: codes whose plain status text is one of the library's texts (not "unknown LLRP status code n")
+	TableTexts int `json:"table_texts"`
+}
+
+func errorTextDirect(err error) (text string, panicked bool, pv string) {
+	defer func() {
+		if r := recover(); r != nil {
+			panicked, pv = true, fmt.Sprint(r)
+		}
+	}()
+	return err.Error(), false, ""
+}
+
+func sweepStatusBytes(code int, kind string) []byte {
+	u16 := func(v int) []byte { return []byte{byte(v >> 8), byte(v)} }
+	tlv := func(t int, body []byte) []byte {
+		return append(append(u16(t), u16(4+len(body))...), body...)
+	}
+	fe := func(c int) []byte { return tlv(288, append(u16(3), u16(c)...)) }
+	pe := func(c int, inner []byte) []byte { return tlv(289, append(append(u16(137), u16(c)...), inner...)) }
+	switch kind {
+	case "status":
+		return tlv(287, append(u16(code), u16(0)...))
+	case "field-error":
+		return tlv(287, append(append(u16(100), u16(0)...), fe(code)...))
+	case "parameter-error":
+		return tlv(287, append(append(u16(101), u16(0)...), pe(code, nil)...))
+	default: // nested: parameter error within parameter error with a field error
+		return tlv(287, append(append(u16(101), u16(0)...), pe(200, append(fe(code), pe(code, nil)...))...))
+	}
+}
+
+func (res *c10SweepRes) note(kind string, code int, err error) {
+	res.Calls++
+	if err == nil {
+		if code != 0 {
+			res.NoError[kind] = append(res.NoError[kind], code)
+		}
+		return
+	}
+	text, panicked, pv := errorTextDirect(err)
+	if panicked {
+		res.Panics[kind] = append(res.Panics[kind], code)
+		if _, ok := res.PanicTx[kind]; !ok {
+			res.PanicTx[kind] = fmt.Sprintf("code %d: %s", code, pv)
+		}
+		return
+	}
+	for i := 0; i+7 <= len(text); i++ {
+		if text[i:i+7] == "(PANIC=" {
+			res.Hidden[kind] = append(res.Hidden[kind], code)
+			break
+		}
+	}
+	if kind == "status" && !(len(text) >= 24 && text[:24] == "unknown LLRP status code") {
+		res.TableTexts++
+	}
+	if len(res.Samples) < 12 && (code%97 == 3 || code == 110) {
+		res.Samples[fmt.Sprintf("%s/%d", kind, code)] = text
+	}
+}
+
+// sweepSession: one Client session in which the peer refuses at `stage` with `code`; returns
+// the error of the call that was refused.
+func sweepSession(stage string, code int) error {
+	cliConn, peer := net.Pipe()
+	defer peer.Close()
+	defer cliConn.Close()
+	st := func(c int) []byte { return []byte{0x01, 0x1f, 0x00, 0x08, byte(c >> 8), byte(c), 0, 0} }
+	go func() {
+		_, _ = peer.Write(peerInitialREN)
+		hb := make([]byte, 10)
+		for {
+			if _, err := io.ReadFull(peer, hb); err != nil {
+				return
+			}
+			typ := int(hb[0]&3)<<8 | int(hb[1])
+			ln := uint32(hb[2])<<24 | uint32(hb[3])<<16 | uint32(hb[4])<<8 | uint32(hb[5])
+			id := uint32(hb[6])<<24 | uint32(hb[7])<<16 | uint32(hb[8])<<8 | uint32(hb[9])
+			if ln > 10 {
+				if _, err := io.CopyN(io.Discard, peer, int64(ln-10)); err != nil {
+					return
+				}
+			}
+			var reply []byte
+			switch typ {
+			case 46:
+				switch stage {
+				case "gsv":
+					reply = peerFrame(0, 1, 56, id, append([]byte{1 << 5, 2 << 5}, st(code)...))
+				case "gsv-errmsg":
+					reply = peerFrame(0, 1, 100, id, st(code))
+				default:
+					reply = peerFrame(0, 1, 56, id, append([]byte{1 << 5, 2 << 5}, st(0)...))
+				}
+			case 47:
+				switch stage {
+				case "spv":
+					reply = peerFrame(0, 2, 57, id, st(code))
+				case "spv-errmsg":
+					reply = peerFrame(0, 2, 100, id, st(code))
+				default:
+					reply = peerFrame(0, 2, 57, id, st(0))
+				}
+			case 1: // GetReaderCapabilities
+				if stage == "sendfor-errmsg" {
+					reply = peerFrame(0, 2, 100, id, st(code))
+				} else {
+					reply = peerFrame(0, 2, 11, id, st(code))
+				}
+			case 14:
+				if stage == "shutdown-errmsg" {
+					reply = peerFrame(0, 2, 100, id, st(code))
+				} else if stage == "shutdown" {
+					reply = peerFrame(0, 2, 4, id, st(code))
+				} else {
+					reply = peerFrame(0, 2, 4, id, st(0))
+				}
+			default:
+				continue
+			}
+			if _, err := peer.Write(reply); err != nil {
+				return
+			}
+			if (typ == 46 && (stage == "gsv" || stage == "gsv-errmsg")) || (typ == 47 && (stage == "spv" || stage == "spv-errmsg")) {
+				// negotiation refused: the reader ends the stream (Connect waits for its read loop)
+				time.Sleep(time.Millisecond)
+				peer.Close()
+				return
+			}
+		}
+	}()
+	c := NewClient(WithLogger(nil))
+	connErr := make(chan error, 1)
+	go func() { connErr <- c.Connect(cliConn) }()
+	ctx, cancel := context.WithTimeout(context.Background(), 5*time.Second)
+	defer cancel()
+	switch stage {
+	case "gsv", "gsv-errmsg", "spv", "spv-errmsg":
+		select {
+		case err := <-connErr:
+			return err
+		case <-ctx.Done():
+			_ = c.Close()
+			return nil
+		}
+	case "sendfor", "sendfor-errmsg":
+		err := c.SendFor(ctx, &GetReaderCapabilities{}, &GetReaderCapabilitiesResponse{})
+		_ = c.Close()
+		peer.Close()
+		<-connErr
+		return err
+	default:
+		err := c.Shutdown(ctx)
+		_ = c.Close()
+		peer.Close()
+		<-connErr
+		return err
+	}
+}
+
+func TestVerifC10StatusSweep(t *testing.T) {
+	lines, w, closeIO := verifIO(t)
+	defer closeIO()
+	for _, l := range lines {
+		var rq c10SweepReq
+		if err := json.Unmarshal([]byte(l), &rq); err != nil {
+			fmt.Fprintf(w, "{\"error\":%q}\n", err.Error())
+			continue
+		}
+		res := c10SweepRes{Op: rq.Op, Panics: map[string][]int{}, Hidden: map[string][]int{}, NoError: map[string][]int{},
+			Samples: map[string]string{}, PanicTx: map[string]string{}}
+		switch rq.Op {
+		case "decode":
+			for code := rq.Lo; code <= rq.Hi; code++ {
+				for _, kind := range []string{"status", "field-error", "parameter-error", "nested"} {
+					em := ErrorMessage{} // its payload is one LLRPStatus parameter
+					if err := em.UnmarshalBinary(sweepStatusBytes(code, kind)); err != nil {
+						res.NoError["undecodable:"+kind] = append(res.NoError["undecodable:"+kind], code)
+						continue
+					}
+					ls := em.LLRPStatus
+					res.note(kind, code, ls.Err())
+					if kind != "status" { // the parts render on their own, too
+						if ls.FieldError != nil {
+							res.note(kind+":FieldError", code, *ls.FieldError)
+						}
+						if ls.ParameterError != nil {
+							res.note(kind+":ParameterError", code, ls.ParameterError)
+						}
+					}
+				}
+			}
+		case "session":
+			var mu sync.Mutex
+			var wg sync.WaitGroup
+			jobs := make(chan [2]interface{}, 64)
+			for k := 0; k < 8; k++ {
+				wg.Add(1)
+				go func() {
+					defer wg.Done()
+					for j := range jobs {
+						stage, code := j[0].(string), j[1].(int)
+						err := sweepSession(stage, code)
+						mu.Lock()
+						res.note("session:"+stage, code, err)
+						mu.Unlock()
+					}
+				}()
+			}
+			for _, stage := range []string{"gsv", "gsv-errmsg", "spv", "spv-errmsg", "sendfor", "sendfor-errmsg", "shutdown", "shutdown-errmsg"} {
+				for _, code := range rq.Codes {
+					jobs <- [2]interface{}{stage, code}
+				}
+			}
+			close(jobs)
+			wg.Wait()
+		}
+		b, _ := json.Marshal(res)
+		w.Write(b)
+		w.WriteString("\n")
+		w.Flush()
+	}
+}
